@@ -374,7 +374,7 @@ def refresh_replay(ctx, edges, uni, tag, rng, budget=None):
     skipped = [r for r in rows if r.get("kind") == "skip"]
     truncated = sum(r.get("lost", 0) for r in rows if r.get("kind") == "truncated")
     res = {"tours": len(tours), "steps": summ["steps"], "bad": len(bad), "skipped": len(skipped),
-           "truncated": truncated, "known": 0, "known_not_rerun": 0, "contact_mismatch": 0, "flaky": 0,
+           "truncated": truncated, "known": 0, "known_not_rerun": 0, "not_rerun": 0, "contact_mismatch": 0, "flaky": 0,
            "planned": sum(len(t["steps"]) for t in tours),
            "selected": len(moves) if select is None else len(select), "edges": len(moves),
            "nontrivial": sum(1 for e in (moves if select is None else select)
@@ -393,11 +393,20 @@ def refresh_replay(ctx, edges, uni, tag, rng, budget=None):
         edge = by_id[r["tour"]]["steps"][r["step"]]
         key = classify_step(edge, r)
         if key in known_open:
-            sampled[key] += 1
-            if sampled[key] > 25:
+            sig, cap = key, 25
+        else:
+            # When very many steps disagree, the ones that look alike (same kind
+            # of action, same kinds of differing fields) are re-run for a sample.
+            sig = (edge["act"].get("mode"), tuple(sorted({d.split(":")[0] for d in r["diffs"]})), r.get("repaired"))
+            cap = 12
+        sampled[sig] += 1
+        if sampled[sig] > cap:
+            if key in known_open:
                 res["known"] += 1
                 res["known_not_rerun"] += 1
-                continue
+            else:
+                res["not_rerun"] += 1
+            continue
         todo.append((r, edge, key))
     if len(todo) > 400:
         raise vlib.Inconclusive("%d disagreements to reproduce one by one (first: %s)" % (len(todo), what_step(todo[0][1], todo[0][0])[:600]))
@@ -620,6 +629,7 @@ def run(ctx):
         "refresh_edge_kinds": dict(stats), "refresh_steps_walked": steps_a,
         "refresh_tours": res2["tours"] + res3["tours"], "refresh_steps_planned": res2["planned"] + res3["planned"],
         "refresh_bad_steps": res2["bad"] + res3["bad"], "refresh_flaky": res2["flaky"] + res3["flaky"] + resb["flaky"],
+        "refresh_bad_steps_not_rerun_alike": res2["not_rerun"] + res3["not_rerun"],
         "refresh_known_finding_steps": res2["known"] + res3["known"] + resb["known"],
         "refresh_known_finding_steps_not_rerun": res2["known_not_rerun"] + res3["known_not_rerun"] + resb["known_not_rerun"],
         "truncated_by_known_finding": res2["truncated"] + res3["truncated"],
